@@ -152,6 +152,11 @@ impl Channel {
     }
   }
 
+  /// Remove a waiter from the waiter lists of this channel
+  pub fn remove_waiter(&mut self, waiter: Ref<ChannelWaiter>) {
+    self.queue.remove_waiter(waiter)
+  }
+
   /// Attempt to get a runnable waiter
   /// from this channel
   pub fn runnable_waiter(&mut self) -> Option<Ref<ChannelWaiter>> {
